@@ -59,7 +59,7 @@ Lemma run_result c script rands sleeps evs r : run_gen fixed c script rands slee
   | _ => True
   end.
 Proof.
-  unfold run_gen. destruct (c_read c && negb (c_val c)). { intros H; injection H as <- <-. exact I. }
+  unfold run_gen. destruct (validation_refuses c). { intros H; injection H as <- <-. exact I. }
   intros H. apply loop_result in H; [|exact I]. destruct r; cbn in *; auto.
   - destruct H as (A & _ & B). rewrite Nat.sub_0_r in B. auto.
   - destruct H as (A & [(B & t & o & E & _) | (_ & B & C)]); [discriminate|]. rewrite Nat.sub_0_r in *. auto.
@@ -81,7 +81,7 @@ Lemma run_retry c script rands sleeps :
   | d :: rest => d = false /\ Forall (fun x => x = true) rest
   end.
 Proof.
-  unfold run_gen. destruct (c_read c && negb (c_val c)); [exact I|].
+  unfold run_gen. destruct (validation_refuses c); [exact I|].
   set (s := init_state c rands sleeps). rewrite loop_unfold. cbn [pre]. cbv zeta. cbn [Nat.ltb Nat.leb].
   pose proof (sel_phase_spec c s) as Q; pose proof (sel_phase_q c s) as Q'. destruct (sel_phase c s) as [s2 t evs2|r evs2].
   2: { destruct Q as [Q _]. cbn [fst app]. now rewrite retry_flags_noatt. }
